@@ -120,7 +120,10 @@ func (P *Prog) buildVC(fn *ssa.Function, opts *VerifyOpts, houdini bool) (res *F
 			case specErr:
 				res.Unsupported = "contract error: " + e.msg
 			default:
-				panic(r)
+				if os.Getenv("GOVC_PANIC") != "" {
+					panic(r)
+				}
+				res.Unsupported = fmt.Sprintf("engine error: %v", r)
 			}
 		}
 		res.Notes = ex.notes
@@ -1139,4 +1142,35 @@ func (fr *Frame) obligeClause(st *State, kind, label string, env *SpecEnv, c Cla
 		return
 	}
 	fr.oblige(st, kind, label, wrap(safeEval(env, c)), 0)
+}
+
+
+// verifyLemma turns a pure lemma (requires ==> ensures over integer parameters)
+// into obligations.
+func (P *Prog) lemmaObligations(l *Lemma, pkg string) (*Exec, []*Obligation) {
+	ex := newExec(P, nil)
+	ex.constMaps = map[string]*constMap{}
+	st0 := &State{ex: ex, H: map[string]Term{}, kind: 0, reach: True}
+	st0.alloc = ex.vc.declare("alloc!0", SInt)
+	ex.entry = st0
+	env := ex.newEnv(st0, st0, &Frame{ex: ex, vals: map[ssa.Value]Val{}})
+	env.pkg = pkg
+	for _, p := range l.Params {
+		env.vars[p] = spec1(ex.vc.declare("lp_"+p, SInt))
+	}
+	for _, r := range l.Requires {
+		ex.vc.assert(safeEval(env, r))
+	}
+	var obls []*Obligation
+	for i, e := range l.Ensures {
+		lbl := e.Label
+		if lbl == "" {
+			lbl = fmt.Sprintf("%d", i)
+		}
+		g := safeEval(env, e)
+		o := &Obligation{Name: fmt.Sprintf("%s.lemma %s#lemma[%s]", pkg, l.Name, lbl), Kind: "lemma", Fn: pkg + ".lemma " + l.Name, Label: lbl, Mark: ex.vc.mark(), Goal: g, Reach: True, vc: ex.vc}
+		obls = append(obls, o)
+		ex.vc.assert(g)
+	}
+	return ex, obls
 }
